@@ -43,6 +43,15 @@ CHECKS = {
     "C14": dict(engine="explorer", cat="model_checking", ref="5/C14",
                 text="Stash / stash-after-upgrade / clone / drop / fetch over 1-2 sets and up to 3 handles interleaved with collector increments, slot table in the state hash; handles are roots of the shadow (safety oracle + C02 probe = alive exactly while a handle exists); probes present every handle to the sibling set, to another arena's set and, after dropping the arena, to a live set.",
                 tech="explicit-state BFS with dynamic-root alphabet + per-state foreign-presentation probe"),
+    "C09": dict(engine="grid", cat="exploration", ref="5/C09", note="Trusted base: the harness workloads and the bound derivation in DESIGN.md 5/C09; configurations outside the enumerated factor values, bursts and workloads are not covered. One known finding (stop-the-world return on an empty heap) is listed in known_findings.json.",
+                text="Every configuration of the stated grid (pacing factors satisfying the documented inequalities incl. stop-the-world, sleep parameters, six workload shapes, bursts, three drivers) is run on the real arena for 120 (thorough 400) rounds chained from the previous state; after every collector call: debt zero or stop phase, cycle bound A < rho*H/(1-rho) for cycles woken by a debt-driven call, stop-the-world rule, and the exact sleep threshold after every debt-free cycle.",
+                tech="exhaustive enumeration of a finite configuration grid on the real code against a reference computation"),
+    "C17": dict(engine="grid", cat="exploration", ref="5/C17", note="Trusted base: tracking allocator (layout pairing, quarantine), x86-64 / glibc; sizes and alignments outside the table are not covered.",
+                text="Every (size, alignment) of the table for sized values, slices, str, header+slice (incl. zero-sized and over-aligned headers/elements/lengths), six per-value metadata types and per-type metadata: alignment and extent checked against the allocator block before writing, position-dependent pattern intact across collections and mid-cycle stops, released with the identical layout (collected / arena dropped asleep / arena dropped mid-sweep), fat/thin and raw-pointer round trips preserve address and length.",
+                tech="exhaustive enumeration of a layout grid on the real allocator path with a tracking allocator oracle"),
+    "C18": dict(engine="grid", cat="exploration", ref="5/C18", note="Trusted base: tracking allocator, destructor log; element constructors panic via resume_unwind.",
+                text="Every builder kind x abandonment point (fresh, after header, constructor panic at every index k <= n, completed) x element kind (token, no drop glue, zero-sized, over-aligned) x arena phase (Sleeping, Marking, Marked, Sweeping) x copy source length n-1/n/n+1: destructor log equals the initialised parts exactly once, block released, Gc count / debt bits / phase unchanged by abandonment, constructor called exactly once per index in order, later collections and arena drop stay clean.",
+                tech="exhaustive enumeration of builder abandonment points on the real code"),
     "C20": dict(engine="explorer", cat="model_checking", ref="5/C20",
                 text="Product exploration of two real arenas with different pacing on one thread (allocation, links, weak pointers, handles, collector steps, dropping either arena): after every operation on one arena the other arena's canonical bookkeeping (incl. colours), drop log, Gc count, debt bits, phase and handles are bit-identical, its own oracles still hold, foreign handles are refused, and C02/C04 probes hold per arena in every product state.",
                 tech="explicit-state BFS over the product of two real arenas, non-interference oracle"),
@@ -86,6 +95,7 @@ def main():
         },
         "engines": [
             {"name": "explorer", "path": "/verif/harness", "serves_properties": sorted(k for k, v in CHECKS.items() if v["engine"] == "explorer"), "kind_free_text": "explicit-state breadth-first model checker over the real gc_arena::Arena (re-execution, canonical-state hashing, shadow-model oracles, per-state probes, fault transitions)"},
+            {"name": "grid", "path": "/verif/harness/src/bin/grid", "serves_properties": sorted(k for k, v in CHECKS.items() if v["engine"] == "grid"), "kind_free_text": "exhaustive enumeration of finite configuration / layout / abandonment grids on the real code against reference computations (tracking allocator, destructor log)"},
         ],
         "checks": checks,
         "not_applicable": na,
